@@ -45,6 +45,8 @@ type Sched struct {
 	MapsOf      map[string]map[int]bool // actor -> ids of the type maps it encoded with
 	PartsOf     map[string]map[int]bool // actor -> ids of the internal tables of those maps
 	ParkOnce    map[string]string       // actor -> a point at which it parks once more (then the entry is removed)
+	Pass        map[string]bool         // points that never park (and are not logged)
+	Rename      map[string]string       // point -> the name under which an arrival there is logged
 }
 
 func goid() int64 {
@@ -85,6 +87,13 @@ func (s *Sched) Hook(point string, subject any) {
 		// a goroutine the schedule does not control (e.g. Stop at the end)
 		s.mu.Unlock()
 		return
+	}
+	if s.Pass[point] {
+		s.mu.Unlock()
+		return
+	}
+	if r, ok := s.Rename[point]; ok {
+		point = r
 	}
 	if s.OnlyPark != nil && !s.OnlyPark[point] && s.ParkOnce[actor] == point {
 		delete(s.ParkOnce, actor) // park here, this once
@@ -341,6 +350,14 @@ func PlaySched(beh M) ([]M, error) {
 	// bound during setup (an extended-protocol command is a command like any other for Close)
 	q := M{"id": 1, "parse": "ok", "stmts": []any{M{"id": 1, "cols": []any{}, "oids": []any{},
 		"prog": []any{M{"op": "gate", "p": "h.enter"}, M{"op": "complete", "tag": "OK"}, M{"op": "ret", "r": "nil"}}}}}
+	if I(beh, "_i")%4 == 2 {
+		// the statement writes a row and is held in the middle of it - the DataRow half built, at the point where the
+		// value is encoded - instead of before it: to the model the same point of the handler
+		s.Pass = map[string]bool{"encode.exit": true}
+		s.Rename = map[string]string{"encode.enter": "h.enter"}
+		q = M{"id": 1, "parse": "ok", "stmts": []any{M{"id": 1, "cols": []any{M{"name": "v", "oid": 25}}, "oids": []any{},
+			"prog": []any{M{"op": "row", "cells": []any{M{"c": "v", "val": "s:hello"}}}, M{"op": "complete", "tag": "OK"}, M{"op": "ret", "r": "nil"}}}}}
+	}
 	x.scripts["q1"] = q
 	// a second statement whose function panics once it is running (recovered by the library inside Execute)
 	x.scripts["q2"] = M{"id": 2, "parse": "ok", "stmts": []any{M{"id": 2, "cols": []any{}, "oids": []any{},
@@ -566,7 +583,20 @@ func PlaySched(beh M) ([]M, error) {
 			servedNil = false // the second accept loop is still running after Close
 		}
 	}
-	x.Log.Append(mem.Ev{"k": "final", "allret": allret, "served": servedNil})
+	// whatever Close did meanwhile, what each connection received is a sequence of whole, well-formed backend messages
+	wireOK := true
+	for _, c := range x.Conns {
+		msgs, rest, bad := pgw.Frame(c.Output())
+		if bad || len(rest) > 0 {
+			wireOK = false
+		}
+		for _, m := range msgs {
+			if wf, _ := pgw.Decode(m)["wf"].(bool); !wf {
+				wireOK = false
+			}
+		}
+	}
+	x.Log.Append(mem.Ev{"k": "final", "allret": allret, "served": servedNil, "wire": wireOK})
 	x.Lis.Close()
 
 	out := []M{{"k": "cfg", "c": M{"closers": cfgS["closers"], "conns": cfgS["conns"]}}}
@@ -608,7 +638,7 @@ func PlaySched(beh M) ([]M, error) {
 		}
 	}
 	if final != nil {
-		out = append(out, M{"k": "final", "allret": final["allret"], "served": final["served"]})
+		out = append(out, M{"k": "final", "allret": final["allret"], "served": final["served"], "wire": final["wire"]})
 	}
 	return out, nil
 }
